@@ -37,7 +37,13 @@ Proof.
 Qed.
 
 Lemma fire_ext_sps w e : same_policy_state w (fire_ext w e).
-Proof. unfold fire_ext. eapply sps_trans; [|apply mark_done_sps]. constructor; reflexivity. Qed.
+Proof.
+  unfold fire_ext.
+  assert (H0 : same_policy_state w (set_scopes w (w_scopes w) (w_seq w) None)) by (constructor; reflexivity).
+  destruct e; try (eapply sps_trans; [exact H0|apply mark_done_sps]).
+  destruct (copy_err _ 0%nat); [exact H0|].
+  eapply sps_trans; [|apply mark_done_sps]. constructor; reflexivity.
+Qed.
 
 Lemma set_now_sps w t : same_policy_state w (set_now w t).
 Proof. constructor; reflexivity. Qed.
